@@ -113,13 +113,25 @@ def evidence(prop, tier, seed, plan, results, infra, unlisted, known_hits, wall,
     return ev
 
 # per-property text for MANIFEST.json
+_common = "memdb instead of MongoDB; one RPC is one atomic step in the message-level engine; known findings (known_findings.json) are recognised only on the MINIMISED trace and, where stated, after a counterfactual replay with the mechanism removed; sampling, not proof"
 META = {
-    "C01": {
-        "level": "Seeded exploration of complete multi-client editing sessions (2-5 real clients, real server, 20-200 steps, long offline stretches, re-attach, rejoin, vanish) with and without message faults; oracles: byte-identical Marshal() of all replicas and of the server's rebuilt document after bounded quiescence, equal content whenever two replicas hold equal version vectors, no un-faulted call fails, clone == root. Sampling, not proof.",
-        "note": "memdb instead of MongoDB; one RPC is one atomic step; GC-related known findings (known_findings.json) are recognised only after minimisation plus a GC-off counterfactual replay",
-    },
+    "C01": {"level": "Seeded exploration of complete multi-client editing sessions (2-5 real clients against the real server, 20-200 steps, whole public editing alphabet, offline stretches, re-attach, rejoin, vanish) with and without message faults (lost request/response, delayed stale duplicates). Oracles: byte-identical Marshal() of all replicas and of the server's rebuilt document after bounded quiescence (3 rounds), equal content whenever two replicas hold equal version vectors, no un-faulted call fails, clone == root.", "note": _common},
+    "C02": {"level": "Same sessions under snapshot thresholds/intervals {1,2,3,5,10,500}, cache size 1/10, purges, late attachers, starved/lazy/eager background snapshot writer, server restarts, lost messages. Oracles: snapshot-fed == change-fed replicas after quiescence and at equal vectors, server rebuild at head and at an earlier seq with warm cache == after purge == replicas with the same vector; further edits on snapshot-fed replicas keep converging.", "note": _common},
+    "C03": {"level": "Delete-heavy sessions with GC on, long offline stretches, housekeeping deactivation after clock jumps; every run is executed a second time from its recorded step list in a world with GC disabled everywhere: step outcomes and every replica's visible content at quiescence must be equal (GC twin), no sync / rebuild may fail.", "note": _common + "; three GC findings of the pinned tree are listed as known"},
+    "C04": {"level": "Sequential schedules only (message-level engine): every pull is compared on the wire with the stored log: exactly the foreign changes of (request checkpoint, response checkpoint], in order, once, no echo of own changes, checkpoints monotone and <= head; log shape serverSeq 1..N and (actor, clientSeq) unique per attachment; under lost/duplicated/stale requests and push-only syncs. True parallel interleavings inside a request (the other half of the quantifier) are NOT explored: the step-level engine was not finished.", "note": _common + "; seeded change C04-2 (needs two overlapping requests of one client) is out of reach"},
+    "C05": {"category": "fault_enumeration", "level": "For a chosen pushing sync of each generated session exactly one fault is placed, enumerated by run index over every storage call that request makes (the call list is learnt from the tree at run time) x {error before, error after, crash before, crash after} plus {request lost, response lost, stale duplicate}; the client retries the identical pack, optionally after further edits. Oracles: conservation (every issued increment counted once, every key present, every appended token exactly once in order on every replica), each (actor, clientSeq) stored once, serverSeq gap-free, replicas and server converge, the un-faulted retry succeeds.", "note": _common + "; the window between CreateChangeInfos and UpdateClientInfoAfterPushPull is a known finding (upstream's own skipped test)"},
+    "C06": {"level": "Wire monitor on every pushed change and every response of C01/C03-style sessions (plus GC-free documents with wire opt-out attachments): vv[self]==lamport, vv covers and lamport exceeds everything the replica had applied before, author timestamps grow, (lamport, actor) unique; every minimum vector handed out is compared, actor by actor, with the REAL document of every client the server still counts as attached (including vanished ones).", "note": _common + "; presence-only changes carry no clock by design and are exempt"},
+    "C08": {"level": "Sessions in which Update callbacks fail after j<=k edits (returned error, panic), exceed a size limit or break schema rules, interleaved with remote packs, snapshots and GC: content, pending changes, checkpoint, version vector and undo history are compared before/after every failed Update; Root() == Marshal() after every step.", "note": _common + "; undo/redo inside these sessions is left to C14"},
+    "C10": {"level": "Sessions with forced and unforced compaction (admin path through the real cluster handler, housekeeping body), restarts, re-attachment: content before == server rebuild after; unforced compaction of an attached document must change nothing; epoch strictly grows; a stale client's sync must be refused with epoch mismatch and store nothing (also after a push-only sync), its detach succeeds, a fresh attach equals a cache-independent rebuild from storage.", "note": _common},
+    "C11": {"level": "Raw protocol clients (generated Connect client, hand-built packs from real Documents) issue Activate/Attach/PushPull/Detach/Remove/Deactivate in any state for 2 clients x 2 documents; a reference state machine written from docs/design/document-client-lifecycle.md predicts accept/reject; rejected calls must not grow any log; after detach/deactivate no stored version vector may lower the minimum; removed documents answer with the removed flag and store nothing.", "note": _common + "; calls on a document key after one of its documents was removed are only checked for 'stores nothing' (the document does not specify them)"},
+    "C12": {"level": "Presence-heavy sessions with snapshot pulls, re-attach, rejoin, vanish, housekeeping deactivation, on presence-enabled and presenceless documents, with late attachers that disagree with the document's setting: AllPresences() equal on all replicas and keyed by exactly the clients the server counts as attached; presenceless: no presence in any stored row, response or snapshot.", "note": _common},
+    "C14": {"level": "Local sessions of one client (the property's quantifier: no remote changes) with single-edit Updates from the content alphabet plus approximate kinds, random well-nested Undo/Redo: a content stack predicts the canonical content (text as attribute runs, trees as XML) after every Undo/Redo of an exact kind; Undo/Redo never fail; clone == root; the final synchronisation succeeds.", "note": _common + "; five undo defects of the pinned tree are listed as known; undo after synchronisation/GC is outside this check (see C15)"},
+    "C18": {"level": "At sync points and at quiescence every replica's document goes through FromCRDT -> Marshal -> Unmarshal -> SetYSON into a fresh Document -> FromCRDT; generated YSON literals of every element type enter through SetYSONElement/WithInitialRoot; a revision created mid-run is restored at the end and must give every replica the recorded content; after all clients detached the real compaction must succeed and keep the content.", "note": _common},
 }
 
 NOT_CLAIMED = {
     "C15": "not claimed: on the pinned tree undo/redo combined with synchronisation violates the property in many distinct ways (sync failures 'child not found' / 'not applicable datatype' / 'node not found', divergence, upstream's own remote-redo divergence); the simulator profile exists (sim/props_c14.go, c15_undo_sync) and finds them within seconds, but a check that is quiet on the unchanged tree would have to list a finding so broad that it decides nothing - see DESIGN.md section 9",
+    "C07": "not claimed: the sequential reference models (string/slice/map/XML) were not built in the time available; a partial canonical-content model exists only inside the C14 oracle",
+    "C16": "not claimed: needs the step-level engine (interleavings inside requests, lock model, race oracle) described in DESIGN.md section 3.5-3.7; it was prototyped during design (deadlock in cluster DetachDocument demonstrated) but not rebuilt in this session",
+    "C17": "not claimed: needs the step-level engine over pkg pubsub (interleavings at mutex/channel operations); not built in this session",
 }
